@@ -60,10 +60,20 @@ def is_method_call_on(run, call, fn, sc, classes, names):
 def name_defined_only_by(run, fn, sc, name, pred):
     """Every definition of local `name` in fn is `name = <call>` with
     pred(call) true.  Returns (ok, defs)."""
+    return _defined_only_by(run, fn, sc, name, pred, 0)
+
+
+def _defined_only_by(run, fn, sc, name, pred, depth):
     ds = defs_of(run.A, fn, name)
-    if not ds:
+    if not ds or depth > 4:
         return False, ds
     for d in ds:
+        if isinstance(d, ast.Assign) and isinstance(d.value, ast.Name) and d.value.id != name:
+            # a plain copy (e.g. the result variable of an inlined helper): follow it
+            ok, _ = _defined_only_by(run, fn, sc, d.value.id, pred, depth + 1)
+            if not ok:
+                return False, ds
+            continue
         if not isinstance(d, ast.Assign) or not isinstance(d.value, ast.Call) or not pred(d.value):
             return False, ds
     return True, ds
